@@ -167,7 +167,11 @@ WriteInst ==
           I("write:string-rhs", "E", Bin("E.Assign", Var("sname"), Str("text"))),
           I("write:abi-rhs", "E", Bin("E.Assign", Var("sbytes"), Call(Member(Var("abi"), "encode"), <<va>>))),
           I("write:bytes-rhs", "E", Bin("E.Assign", Var("sbytes"), Call(Ty("bytes", 0), <<Str("b")>>))),
-          I("write:addr", "E", Bin("E.Assign", Var("sa"), MsgSender))}
+          I("write:addr", "E", Bin("E.Assign", Var("sa"), MsgSender)),
+          I("write:payable", "E", Bin("E.Assign", Var("spay"), Call(Ty("payable", 0), <<MsgSender>>))),
+          I("write:bool", "E", Bin("E.Assign", Var("sflag"), BoolLit(TRUE))),
+          I("write:int", "E", Bin("E.AssignSubtract", Var("sint"), Num("1"))),
+          I("write:bytes4", "E", Bin("E.Assign", Var("sb4"), Var("sel")))}
 
 -----------------------------------------------------------------------------
 (* Hosts: a contract with state variables and one function of a given kind   *)
@@ -176,6 +180,8 @@ StateVar(name, ty, vattrs, init) == N("CP.VariableDefinition", [name |-> name, v
 HostDecls ==
     <<StateVar("sv", U256, <<>>, <<>>), StateVar("su", U256, <<>>, <<>>), StateVar("sa", Ty("address", 0), <<>>, <<>>),
       StateVar("sname", Ty("string", 0), <<>>, <<>>), StateVar("sbytes", Ty("bytes", 0), <<>>, <<>>),
+      StateVar("spay", Ty("address payable", 0), <<>>, <<>>), StateVar("spayIdle", Ty("address payable", 0), <<>>, <<>>),
+      StateVar("sflag", Ty("bool", 0), <<>>, <<>>), StateVar("sint", Ty("int", 64), <<>>, <<>>), StateVar("sb4", Ty("bytesN", 4), <<>>, <<>>),
       StateVar("arr", Index(U256, Num("4")), <<>>, <<>>), StateVar("sconst", U256, <<"constant">>, <<Num("5")>>),
       StateVar("simm", U256, <<"immutable">>, <<>>)>>
 
